@@ -11,9 +11,12 @@ with numpy:
 
 Don't-care zone (DESIGN.md C19): Java's tables are the binary doubles, C's went through '%.10E' (5e-11 relative), so a continuous
 argument within 1e-9 of a table end / edge may legitimately take the other branch on one side only.  Every disagreeing tuple is
-therefore re-run on both sides with each double argument moved by +-1e-8 (relative); if C's result at the original point is
-reproduced by Java somewhere in that neighbourhood AND Java's original result is reproduced by C somewhere in it, the tuple sits
-on a decision boundary and is counted in boundary_tuples instead of being reported.  Everything else is re-checked by a
+therefore re-run on both sides with each double argument x moved to x(1+1e-8) and x(1-1e-8); if for some argument the two sides
+agree (same primary tolerance) at BOTH neighbours, the disagreement is confined to an interval narrower than 2e-8 between two
+points of agreement: the tuple sits on a decision boundary (each side shows both behaviours within the neighbourhood) and is
+counted in boundary_tuples instead of being reported.  A systematic difference (dropped term, shifted range check on an integer
+argument, wrong constant) disagrees at the neighbours too and is never classified as boundary; arguments 0 and +-DBL_MAX have
+no neighbourhood and are always reported.  Everything else is re-checked by a
 single-call replay on both sides (fresh request of one tuple) and reported.
 
 Error messages: the predefined message constants of java/Xraylib.java equal those of src/xraylib-error-private.h, but formatted
@@ -226,12 +229,14 @@ def close(rc, rj, atol, rtol=RTOL):
     return np.where(ec | ej, ec & ej, ok)
 
 
-def symptom_of(rc, rj):
+def symptom_of(rc, rj, p=None):
     ec = bool(rc["flags"] & F_ERR); ej = bool(rj["flags"] & F_ERR)
     if ec and not ej:
         return "c-error-java-value"
     if ej and not ec:
         return "java-exception-c-value"
+    if p is not None and p.kind == "op" and p.op in OBJ_LINES and p.op != "Atomic_Factors":
+        return "object-differs"         # v0/v1 of an object op are summary fields of the object (e.g. nElements, molar mass)
     return "value-differs"
 
 
@@ -397,17 +402,21 @@ def compare_plan(ctx, lock, S, p, stats):
         has_d = "d" in argsig(p)
         if has_d:
             q, V = neighbourhood(p, bad)
+            dcols = [k for k, c in enumerate(argsig(p)) if c == "d"]
             nrc, nrj, _, _, ncr, nsk = S.run(q)
             extra_calls = 2 * q.n
             m = len(bad)
             nrc = nrc.reshape(V, m); nrj = nrj.reshape(V, m)
             at = atol[bad]
-            c_found = np.zeros(m, dtype=bool); j_found = np.zeros(m, dtype=bool)
-            for v in range(V):
-                c_found |= close(nrc[0], nrj[v], at, rtol=1e-6)     # C's original behaviour shown by Java nearby
-                j_found |= close(nrc[v], nrj[0], at, rtol=1e-6)     # Java's original behaviour shown by C nearby
             still = ~close(nrc[0], nrj[0], at)                       # the batch disagreement is reproducible
-            isb = c_found & j_found & still
+            # boundary: for some double argument the two sides agree (primary tolerance) at BOTH neighbours x(1+1e-8) and x(1-1e-8),
+            # i.e. the disagreement is confined to an interval narrower than 2e-8 (relative) between two points of agreement
+            isb = np.zeros(m, dtype=bool)
+            for k in range((V - 1) // 2):
+                up, dn = 1 + 2 * k, 2 + 2 * k
+                moved = (q.cols[dcols[k]][up * m:(up + 1) * m] != q.cols[dcols[k]][:m]) & (q.cols[dcols[k]][dn * m:(dn + 1) * m] != q.cols[dcols[k]][:m])
+                isb |= close(nrc[up], nrj[up], at) & close(nrc[dn], nrj[dn], at) & moved
+            isb &= still
             boundary = int(isb.sum())
             for t in np.nonzero(~isb)[0]:
                 genuine.append(int(bad[t]))
@@ -424,9 +433,9 @@ def compare_plan(ctx, lock, S, p, stats):
         if cr or bool(close(r1c, r1j, atol[j:j + 1])[0]):
             unconfirmed += 1
             continue
-        reported.append((j, symptom_of(r1c[0], r1j[0]), r1c[0], r1j[0], l1c, l1j))
+        reported.append((j, symptom_of(r1c[0], r1j[0], p), r1c[0], r1j[0], l1c, l1j))
     for j in genuine[MAX_SINGLE:]:
-        reported.append((j, symptom_of(rc[j], rj[j]), rc[j], rj[j], None, None))
+        reported.append((j, symptom_of(rc[j], rj[j], p), rc[j], rj[j], None, None))
     for j, why in list(objbad.items())[:MAX_SINGLE]:
         one = subplan(p, [j])
         r1c, r1j, l1c, l1j, cr, sk = S.run(one, mode=0)
@@ -445,7 +454,12 @@ def compare_plan(ctx, lock, S, p, stats):
             args = c03.argtuple(p, j)
             key = "%s|%s|%s|%s" % (cfg, mname, c03.arg_class(p, j), sym)
             if sym == "object-differs":
-                what = "%s%r [%s]: C and Java objects differ: %s" % (mname, tuple(args), cfg, la[0])
+                if lb is None and la:
+                    why = la[0]
+                else:
+                    why = cmp_object(p.op, xrl.parse_blob_lines(la or []).get(0), xrl.parse_blob_lines(lb or []).get(0)) or \
+                        "summary fields C=(%r, %r) Java=(%r, %r)" % (float(a["v0"]), float(a["v1"]), float(b["v0"]), float(b["v1"]))
+                what = "%s%r [%s]: C and Java objects differ: %s" % (mname, tuple(args), cfg, why)
             else:
                 what = "%s%r [%s]: C -> %s ; Java -> %s" % (mname, tuple(args), cfg, fmt_rec(a, la), fmt_rec(b, lb))
             call = dict(kind=p.kind, name=p.name, op=p.op, sig=p.sig, args=args, atol=float(atol[j]), symptom=sym)
